@@ -195,6 +195,14 @@ def catalogue():
                   M.and_(M.cmp_(f, ">=", M.lit_int("0")), M.cmp_(f, "<", M.ident("level")))):
             yield _case(M.program("e", M.if_([(p, R(0))], R(1)), splitters=[nm] if nm in ("true", "null") else None),
                         [{nm: v, "level": l} for v in (0, 1, 2, 7, 0.0, 1.0, -1) for l in (0, 1, 7, 3)])
+    # 1d. chains whose links test the same field against literals that are == although written differently (1 / 1.0 / "1",
+    # 0 / 0.0 / -0.0): the FIRST link that holds decides
+    X = M.ident("x")
+    for lits in ([M.lit_int("1"), M.lit_float("1.0"), M.lit_str("1")], [M.lit_float("1.0"), M.lit_int("1")], [M.lit_int("0"), M.lit_float("0.0", True), M.lit_float("0.0")],
+                 [M.lit_str("a"), M.lit_str("a", "'"), M.lit_int("7"), M.lit_float("7.0")], [M.lit_int("2"), M.lit_int("3"), M.lit_float("2.0"), M.lit_int("2")]):
+        for has_else in (True, False):
+            body = M.if_([(M.cmp_(X, "==", l), R(i)) for i, l in enumerate(lits)], R(9) if has_else else None)
+            yield _case(M.program("e", body, splitters=["uid"]), [{"x": v, "uid": "u"} for v in (1, 1.0, True, "1", 0, 0.0, -0.0, False, 7, 7.0, "a", 2, 2.0, 3, None)])
     # 2. boolean trees of depth <= 2 over atoms a,b,c (each atom: field == 1) x all truth assignments
     atoms = [M.cmp_(M.ident(n), "==", M.lit_int("1")) for n in "abc"]
     envs = [dict(zip("abc", bits)) for bits in itertools.product([0, 1], repeat=3)]
